@@ -121,6 +121,81 @@ def same_name_engines(rng):
     return out
 
 
+def request(eng, how, pref):
+    if how == "direct":
+        return eng.get_relation_name(pref)
+    if how == "leaf" or isinstance(eng, sql.Engine):
+        return dr.LeafRelation(eng, frozenset({K(1)}), payload=object(), name_prefix=pref).name
+    leaf = eng.make_leaf({K(1)}, payload=iteration.RowSequence([]), name="fixed")
+    return leaf.with_rows_satisfying(dr.ColumnExpression.reference(K(1)).eq(dr.ColumnExpression.literal(1))) \
+        .materialized(name_prefix=pref).name
+
+
+def forced_interleavings():
+    """The schedules the theorem quantifies over, forced deterministically on the real code instead of hoped for: the
+    engine's counter attribute is replaced (in a subclass, for this harness only) by a property that can park the calling
+    thread at its k-th access; while request A is parked there, m complete requests B run on the same engine; then A
+    resumes.  Real uuid4.  -> list of (description, names) in which the names must be pairwise distinct."""
+    out = []
+    for base in (iteration.Engine, sql.Engine):
+        for how_a in ("direct", "leaf", "mat"):
+            for how_b in ("direct", "leaf"):
+                for pause_at in (1, 2, 3):
+                    for m in (1, 2):
+                        state = {"n": 0, "a": None}
+                        paused, resume = threading.Event(), threading.Event()
+
+                        def hook():
+                            if threading.current_thread() is state["a"]:
+                                state["n"] += 1
+                                if state["n"] == pause_at:
+                                    paused.set()
+                                    resume.wait(5)
+
+                        class Probe(base):
+                            @property
+                            def relation_name_counter(self):
+                                v = self.__dict__.get("_rnc", 0)
+                                hook()
+                                return v
+
+                            @relation_name_counter.setter
+                            def relation_name_counter(self, v):
+                                hook()
+                                self.__dict__["_rnc"] = v
+                        eng = Probe(name="forced")
+                        names = []
+
+                        def run_a():
+                            names.append(("a", request(eng, how_a, "a")))
+                        t = threading.Thread(target=run_a)
+                        state["a"] = t
+                        t.start()
+                        paused.wait(5)
+                        for _ in range(m):
+                            names.append(("a", request(eng, how_b, "a")))      # the SAME prefix: only counter and suffix differ
+                        resume.set()
+                        t.join(5)
+                        out.append((f"{base.__module__.split('.')[-2]} engine: request A ({how_a}) parked at its access #{pause_at} "
+                                    f"to the counter while {m} request(s) B ({how_b}) complete", names))
+    return out
+
+
+def engine_turnover():
+    """Engines created and dropped one after another (one per query is the common pattern): the names handed out by all
+    of them, kept by the caller, must still be pairwise distinct."""
+    import gc
+    names = []
+    for _ in range(40):
+        for cls in (iteration.Engine, sql.Engine):
+            eng = cls(name="turnover")
+            names.append(("leaf", eng.get_relation_name("leaf")))
+            names.append(("leaf", request(eng, "leaf", "leaf")))
+            del eng
+            gc.collect()
+    return names
+
+
 def run(ctx):
     rng = random.Random(ctx.seed)
     s1 = core.s1(ctx, ["Names"], "Properties.C19", THEOREMS, extra_targets=["Model/CheckNames.vo"])
@@ -146,6 +221,21 @@ def run(ctx):
             dup = [x for x in just if just.count(x) > 1][:4]
             found |= ctx.failing_case({"kind": "threaded-names", "duplicates": dup,
                                        "bad_prefix": [(p, nm) for p, nm in names if not nm.startswith(p + "_")][:4]}, None)
+    forced = []
+    try:
+        forced = forced_interleavings() + [("engines created and dropped one after another", engine_turnover())]
+    except Exception as e:  # noqa: BLE001 — the probe no longer fits the code: reported through the correspondence
+        s1["ok"] = False
+        s1["broken"].append({"kind": "model-implementation-correspondence-broken",
+                             "explanation": f"forced interleavings cannot be driven: {e!r}"})
+    forced_bad = 0
+    for what, names in forced:
+        just = [nm for _p, nm in names]
+        if len(set(just)) != len(just) or any(not nm.startswith(p + "_") for p, nm in names):
+            forced_bad += 1
+            if forced_bad <= 2:
+                found |= ctx.failing_case({"kind": "forced-schedule", "schedule": what, "names": names[:8],
+                                           "duplicates": sorted({x for x in just if just.count(x) > 1})[:4]}, None)
     shared_total = 0
     for k in range(20 if ctx.tier == "quick" else 300):
         names = same_name_engines(rng)
@@ -163,6 +253,10 @@ def run(ctx):
     core.conclude_s1(ctx, s1, found or bool(ctx.violations))
     ctx.coverage.update({
         "names_from_engines_sharing_a_name": shared_total,
+        "forced_schedules": {"driven": len(forced), "with_collisions": forced_bad,
+                             "rule": "request A parked at its 1st/2nd/3rd access to the engine's counter while 1 or 2 complete "
+                                     "requests B run on the same engine (both engine classes, every request kind); engines "
+                                     "created and dropped in sequence"},
         "evaluations": len(cases) + rounds, "distinct_nontrivial": len({c["key"] for c in cases if c["nontrivial"]}),
         "rule": "sequential histories of name requests (direct, via LeafRelation, via materialized()) on 1-3 engines with "
                 "a deterministic uuid source, compared character by character with the model; plus real threads (8 threads, "
